@@ -20,7 +20,7 @@ MAX_ALPHABET = 128
 
 
 def cfgs(tier: str) -> List[catalog.Cfg]:
-    return [c for c in catalog.CATALOG if c.kind == "default"]
+    return [c for c in catalog.CATALOG if c.kind == "default" or c.modeb]
 
 
 def tasks(pid: str, tier: str, seed: int, families=None) -> List[Any]:
@@ -36,9 +36,11 @@ def tasks(pid: str, tier: str, seed: int, families=None) -> List[Any]:
             continue
         if only_m and (c.name + "@modeB") not in only_m.split(","):
             continue
-        out.append(("mc.checks.modeb", "explore", dict(pid=pid, cfg_name=c.name, tier=tier, seed=seed, which="first")))
+        first = c.modeb or "first"
+        out.append(("mc.checks.modeb", "explore", dict(pid=pid, cfg_name=c.name, tier=tier, seed=seed, which=first)))
         if tier == "thorough":
-            out.append(("mc.checks.modeb", "explore", dict(pid=pid, cfg_name=c.name, tier=tier, seed=seed, which="last")))
+            other = "last" if first == "first" else "first"
+            out.append(("mc.checks.modeb", "explore", dict(pid=pid, cfg_name=c.name, tier=tier, seed=seed, which=other)))
     return out
 
 
